@@ -16,4 +16,4 @@ Extraction "../ocaml/model.ml"
   Pass.forward Pass.run_stage Pass.mkPT Pass.mkPR BackPass.backward BackPass.run_bstage
   Reader.decode Reader.lines_of Reader.tokens Reader.parse_dots Reader.parse_chars
   Image.check_image Image.allocs_ok Image.ref_ok Image.bucket_ok Image.record_ok Image.pass_ok Image.fwd_before Image.back_before
-  Image.single_before_e Image.fpass_before Image.bpass_before Image.nodup_offs Image.members_allocated Image.build_map Image.arena_alloc Image.arena_init Image.rules_linked Image.mkRI.
+  Image.single_before_e Image.fpass_before Image.bpass_before Image.nodup_offs Image.members_allocated Image.build_map Image.arena_alloc Image.arena_init Image.rules_linked Image.mkRI Image.bounds_ok.
